@@ -694,6 +694,8 @@ def from_debug(sch, ty, tree, names):
             raise DebugMismatch('enum: %r' % (tree,))
         return tree[2][0][1]
     if d['kind'] == 'struct':
+        if tree[0] == 'unit':
+            tree = ('struct', tree[1], [])          # `struct Empty {}` prints as `Empty`
         if tree[0] != 'struct':
             raise DebugMismatch('struct %s: %r' % (ty[1], tree))
         fs = list(tree[2])
